@@ -53,7 +53,17 @@ pub struct SimScheduler {
     shared: Arc<Shared>,
     /// (task, remaining decisions) of a thread stalled in a large write
     stalled: Option<(usize, usize)>,
+    /// decision number at which each task last ran (fairness: see FAIR_AFTER)
+    last_ran: BTreeMap<usize, usize>,
+    decisions: usize,
 }
+
+/// A runnable thread that has not been chosen for this many decisions runs next. Real schedulers
+/// are fair in this weak sense; without it a thread that polls (a spin on `try-mutex`, on
+/// `mutex-locked?`, on an atomic box) can be chosen forever by a priority or sticky strategy and a
+/// correct program would be reported as making no progress. Deadlocks (no thread runnable) are
+/// not affected.
+const FAIR_AFTER: usize = 1500;
 
 impl SimScheduler {
     pub fn new(strategy: Strategy, seed: u64) -> (SimScheduler, Arc<Shared>) {
@@ -66,7 +76,7 @@ impl SimScheduler {
             }
         }
         (
-            SimScheduler { strategy, rng, started: false, step: 0, priorities: BTreeMap::new(), change_points, lowest: 0, shared: shared.clone(), stalled: None },
+            SimScheduler { strategy, rng, started: false, step: 0, priorities: BTreeMap::new(), change_points, lowest: 0, shared: shared.clone(), stalled: None, last_ran: BTreeMap::new(), decisions: 0 },
             shared,
         )
     }
@@ -81,10 +91,25 @@ impl Scheduler for SimScheduler {
         Some(Schedule::new(0))
     }
 
-    fn next_task(&mut self, runnable: &[&Task], current: Option<TaskId>, _is_yielding: bool) -> Option<TaskId> {
+    fn next_task(&mut self, runnable: &[&Task], current: Option<TaskId>, is_yielding: bool) -> Option<TaskId> {
         let mut ids: Vec<usize> = runnable.iter().map(|t| usize::from(t.id())).collect();
         let cur = current.map(usize::from);
+        self.decisions += 1;
+        for id in &ids {
+            self.last_ran.entry(*id).or_insert(self.decisions);
+        }
+        let mut forced = None;
         if !matches!(self.strategy, Strategy::Replay(_)) {
+            // the current thread gives way (a failed try-mutex, a poll, a pause): somebody else runs
+            if is_yielding && ids.len() > 1 {
+                if let Some(c) = cur {
+                    ids.retain(|i| *i != c);
+                    if matches!(self.strategy, Strategy::Pct { .. }) {
+                        self.lowest -= 1;
+                        self.priorities.insert(c, self.lowest);
+                    }
+                }
+            }
             if let (Some(n), Some(c)) = (self.shared.stall_request.lock().unwrap().take(), cur) {
                 self.stalled = Some((c, n));
                 self.shared.stalls_started.fetch_add(1, Ordering::SeqCst);
@@ -102,8 +127,12 @@ impl Scheduler for SimScheduler {
                     self.stalled = None;
                 }
             }
+            // weak fairness
+            let d = self.decisions;
+            forced = ids.iter().copied().filter(|i| d - self.last_ran.get(i).copied().unwrap_or(d) > FAIR_AFTER).min_by_key(|i| self.last_ran[i]);
         }
         let choice = match &self.strategy {
+            _ if forced.is_some() => forced.unwrap(),
             Strategy::Random => ids[self.rng.usize_below(ids.len())],
             Strategy::Sticky { stay } => match cur {
                 Some(c) if ids.contains(&c) && self.rng.below(100) < *stay => c,
@@ -143,6 +172,7 @@ impl Scheduler for SimScheduler {
                 }
             }
         };
+        self.last_ran.insert(choice, self.decisions);
         self.shared.choices.lock().unwrap().push(choice as u32);
         Some(TaskId::from(choice))
     }
